@@ -86,7 +86,7 @@ PROPS = {
                      "range start/end multiples of the write size (implied by a successful erase in `new`)"],
     ),
     "C07": dict(
-        modules=["Fuota.Props.C07"],
+        modules=["Fuota.Props.C07", "Fuota.Props.C07b"],
         suites=[dict(name="d5r", cfg="matrix", keys=["res", "recv", "total", "complete", "s0", "s1", "s2", "s3", "s4", "s5"])],
         rule="per generated session: the uninterrupted run is recorded, then for every position between two operations "
              "(sampled in quick tier; always incl. before the first fragment and after completion before the mark) a twin "
@@ -121,7 +121,7 @@ PROPS = {
                      "after the first one took effect)"],
     ),
     "C08": dict(
-        modules=["Fuota.Props.C08"],
+        modules=["Fuota.Props.C08", "Fuota.Props.C08b"],
         suites=[dict(name="d5s", cfg="matrix", keys=["ops"]),
                 dict(name="d5m", cfg="matrix", keys=["ops"]),
                 dict(name="d6", cfg="matrix", keys=["ops"]),
